@@ -340,6 +340,7 @@ def run(ctx):
     prescan_dispatch_position(ctx)
     bom_table(ctx)
     label_decoding(ctx)
+    bom_read_and_seek(ctx)
 
 
 def bom_table(ctx):
@@ -371,6 +372,44 @@ def bom_table(ctx):
                 "U+0000, not UTF-32)" % (kn, label, label), {"bom": kn, "label": label}, detail={"bom": kn, "label": label})
     for kn in sorted(set(std) - seen):
         r.bad("C06.10", "bom::%s" % kn, f.where, "the BOM table has no entry for %s" % kn)
+
+
+def bom_read_and_seek(ctx, rid_seek="C06.12", rid_read="C06.13"):
+    """C06.12: after a BOM match the stream is positioned exactly behind the BOM that matched -- `seek(len(matched BOM))`.  A
+    constant offset chosen by *which slice was looked up* (`string[:3]` -> 3) overshoots when the slice is shorter than asked
+    for: a 2-byte UTF-16 BOM found through the 3-byte lookup seeks to 3, beyond what a non-seekable source has delivered
+    (AssertionError in BufferedStream.seek).
+    C06.13: the four bytes the BOM test looks at are collected by reading until four bytes are there or the source is empty; a
+    single read(4) may legally return fewer (pipes, sockets), and the BOM is then missed or half-matched."""
+    r = ctx.r
+    f = ctx.repo.func(REL, "HTMLBinaryInputStream.detectBOM")
+    r.rule(rid_seek, "the seek after a BOM match is the length of the BOM that matched", floor=1)
+    r.rule(rid_read, "BOM sniffing completes a short first read", floor=1)
+    seeks = [c for c in ast.walk(f.node) if isinstance(c, ast.Call) and norm(c.func).endswith("rawStream.seek") and c.args and norm(c.args[0]) != "0"]
+    if len(seeks) != 1 or not isinstance(seeks[0].args[0], ast.Name):
+        r.idiom(rid_seek, False, "bom-seek-length", f.where, "detectBOM: the seek behind the BOM was not found")
+    else:
+        var = seeks[0].args[0].id
+        stores = [s for s in ast.walk(f.node) if isinstance(s, ast.Assign) and any(isinstance(t, ast.Name) and t.id == var for t in s.targets) or
+                  (isinstance(s, ast.Assign) and any(isinstance(t, ast.Tuple) and any(isinstance(e, ast.Name) and e.id == var for e in t.elts) for t in s.targets))]
+        nonzero = [s for s in stores if not (isinstance(s.value, ast.Constant) and s.value.value == 0)]
+        by_len = bool(nonzero) and all("len(" in norm(s.value) for s in nonzero)
+        consts = [s for s in nonzero if isinstance(s.value, ast.Constant)]
+        sliced = [n for n in ast.walk(f.node) if isinstance(n, ast.Subscript) and isinstance(n.slice, ast.Slice) and norm(n.value) == "string"]
+        guarded = any(isinstance(t, (ast.If, ast.IfExp)) and "len(string)" in norm(t.test) for t in ast.walk(f.node))
+        r.idiom(rid_seek, by_len, "bom-seek-length", "%s:%d" % (REL, seeks[0].lineno), "detectBOM: seek offset `%s` not recognised" % var,
+                wrong=[(bool(consts) and bool(sliced) and not guarded,
+                        "detectBOM seeks to a constant chosen by the slice it looked up (%s), not to the length of the BOM that matched: when "
+                        "the first read returned only the two bytes FF FE, `string[:3]` is that UTF-16 BOM, the offset is 3 and the seek "
+                        "goes beyond what a non-seekable source has delivered (AssertionError)" % sorted({norm(s.value) for s in consts}))],
+                detail={"offset_stores": [norm(s)[:50] for s in stores]})
+    reads = [c for c in ast.walk(f.node) if isinstance(c, ast.Call) and norm(c.func).endswith("rawStream.read")]
+    loops = [w for w in ast.walk(f.node) if isinstance(w, ast.While) and any(c in list(ast.walk(w)) for c in reads)]
+    r.idiom(rid_read, bool(loops), "bom-read-completed", f.where, "detectBOM: how the first bytes are read was not recognised",
+            wrong=[(len(reads) == 1 and not loops,
+                    "detectBOM looks at the result of a single read(4): a source that returns the first bytes in pieces (pipe, socket; "
+                    "legal for file-like objects) has its BOM missed -- U+FEFF or the BOM bytes end up in the document -- or half-matched")],
+            detail={"reads": len(reads), "in_loop": bool(loops)})
 
 
 def label_decoding(ctx):
@@ -590,6 +629,9 @@ def mutants():
                 "        charEncoding = lookupEncoding(self.transport_encoding), \"certain\"\n"
                 "        if charEncoding[0] is not None:\n            return charEncoding\n\n")
     return [
+        T("bom-single-read", "_inputstream.py", "        while len(string) < 4:\n            more = self.rawStream.read(4 - len(string))\n            if not more:\n                break\n            string += more\n", "", "C06.13"),
+        T("bom-seek-constant", "_inputstream.py", "        encoding = None\n        seek = 0\n        for bom, name in bomDict.items():\n            if string.startswith(bom):\n                encoding = name\n                seek = len(bom)\n                break\n",
+          "        encoding = bomDict.get(string[:3])\n        seek = 3\n        if not encoding:\n            encoding = bomDict.get(string[:2])\n            seek = 2\n", "C06.12"),
         T("bom-utf32-entry", REL, "            codecs.BOM_UTF16_LE: 'utf-16le', codecs.BOM_UTF16_BE: 'utf-16be',\n        }", "            codecs.BOM_UTF16_LE: 'utf-16le', codecs.BOM_UTF16_BE: 'utf-16be',\n            codecs.BOM_UTF32_LE: 'utf-32le',\n        }", "C06.10"),
         T("bom-utf16-swapped", REL, "codecs.BOM_UTF16_LE: 'utf-16le', codecs.BOM_UTF16_BE: 'utf-16be'", "codecs.BOM_UTF16_LE: 'utf-16be', codecs.BOM_UTF16_BE: 'utf-16le'", "C06.10"),
         T("endtag-extra-advance", REL, "    def handlePossibleEndTag(self):\n        return self.handlePossibleTag(True)", "    def handlePossibleEndTag(self):\n        next(self.data)\n        return self.handlePossibleTag(True)", "C06.9"),
